@@ -22,7 +22,9 @@ pub fn predicate(name: &str, case: &Value, fail: &Fail) -> bool {
         }
         // F12 (C11): the emitter recurses per nesting level
         "c11_deep_tree_emit" => {
-            fail.category == "abort" && case["api"].as_str() == Some("emit") && case["depth"].as_u64().unwrap_or(0) >= 20_000
+            // unoptimised frames are larger: there the recursion runs out of stack from ~16 800 levels
+            let floor = if case["profile"].as_str() == Some("debug") { 12_000 } else { 20_000 };
+            fail.category == "abort" && case["api"].as_str() == Some("emit") && case["depth"].as_u64().unwrap_or(0) >= floor
         }
         // F25 (C06): a tab used as the indentation of a block collection whose parent is the
         // document or a collection at indentation 0 is accepted (the scanner only polices tabs at
